@@ -975,6 +975,13 @@ def _eval_two_messages(ctx):
                 "self.receivedHeader": lambda *a, **kw: b"Received: x", "self.sendCode": lambda code, *a, **kw: sent.append(code),
                 "self._messageHandled": lambda *a, **kw: handled.append(a), "self._disconnect": lambda *a, **kw: None})
     bind_methods(env, [cls], funcs)
+    # per-connection initial state: what __init__ assigns unconditionally from constants (anything else stays as modelled above)
+    for st in (methods(cls)["__init__"].body if "__init__" in methods(cls) else ()):
+        if isinstance(st, ast.Assign) and len(st.targets) == 1 and is_self_attr(st.targets[0]) and ("self." + st.targets[0].attr) not in env:
+            try:
+                env["self." + st.targets[0].attr] = peval(st.value, dict(menv))
+            except (NotPure, Raised):
+                pass
 
     def transaction(message, lines):
         factory = lambda: message       # noqa: E731
